@@ -253,6 +253,7 @@ func (c *Ctx) c01Strides() {
 			continue
 		}
 		tf := &typeFacts{T: T, LenConst: -1, PadConst: -1, SerSize: -1, DecLen: -1}
+		lenF, padF = delegated(lenF), delegated(padF)
 		c.fillLenPad(tf, lenF, padF)
 		switch {
 		case tf.LenConst >= 0 && tf.PadConst >= 0:
